@@ -336,7 +336,7 @@ class InterpBuiltins:
         has_default = len(args) > 1
         default = args[1] if has_default else None
         if isinstance(v, GenV):
-            q = self.quantified_gen(v, 'elems')
+            q = self.quantified_gen(v, 'elems', ordered=True)
             if q[0] == 'const':
                 _, items, g, node, gfr = q
                 sub = Frame(gfr.fi, gfr.module, dict(gfr.vars), gfr.selfv, gfr.defcls)
@@ -613,6 +613,7 @@ class InterpBuiltins:
         if name == 'clear':
             hn, ha = self.dict_has(d)
             self.heap.set(hn, z3.Store(ha, d.ref, z3.K(sort_of(d.kty), z3.BoolVal(False))))
+            self._dict_order_reset(d)
             return None
         if name == 'copy':
             nd = self.new_dict(d.kty, d.vty)
@@ -620,6 +621,8 @@ class InterpBuiltins:
             self.heap.set(hn, z3.Store(ha, nd.ref, self.dict_has(d)[1][d.ref]))
             vn, va = self.dict_val(nd)
             self.heap.set(vn, z3.Store(va, nd.ref, self.dict_val(d)[1][d.ref]))
+            _, oa, _, la = self.dict_order(d)
+            self.dict_order_set(nd, oa[d.ref], la[d.ref])
             return nd
         if name == 'update':
             return self.reg.dict_update(self, d, args, kw, line)
@@ -785,6 +788,30 @@ class InterpBuiltins:
 
     def bi_keys(self, args, kw, line):
         return ValuesView(args[0], 'keys')
+
+    def bi_gmap(self, args, kw, line):
+        """spec: gmap(coll, 'name', key) -> int.  Ghost integer map attached to a collection object (an abstract quantity
+        derived from its contents that the engine does not compute, e.g. a sum).  It lives in the heap next to the
+        contents of the collection (same frame rules: it is havocked whenever the contents may be modified)."""
+        coll, name, key = args
+        prefix = {ListV: 'L.', SetV: 'S.', DictV: 'D.'}.get(type(coll))
+        if prefix is None or not isinstance(name, str):
+            raise Unsupported('gmap(collection, literal name, key)')
+        kt = self.lift(key)
+        a = self.H(coll).get(f'{prefix}g.{name}:{kt.sort()}', arr(Ref, arr(kt.sort(), I)))
+        return SV(a[coll.ref][kt], INT)
+
+    def bi_order_len(self, args, kw, line):
+        """spec: number of positions of the insertion order of dict d (= number of keys)"""
+        d = args[0]
+        self.dict_ordered_iter(d)    # assumes that the order ghost enumerates the keys
+        return SV(self.dict_order(d)[3][d.ref], INT)
+
+    def bi_key_at(self, args, kw, line):
+        """spec: key_at(d, j) = the j-th key of dict d in insertion order (meaningful for 0 <= j < order_len(d))"""
+        d, j = args
+        self.dict_ordered_iter(d)
+        return self.wrap(self.dict_order(d)[1][d.ref][self.lift(j)], d.kty, d.heap)
 
     def bi_is_alloc(self, args, kw, line):
         v = args[0]
